@@ -71,11 +71,19 @@ impl DelegateToDefaultImpl for Rc<Unimock> {
     type Delegator = Rc<DefaultImplDelegator>;
 
     fn to_delegator(self) -> Self::Delegator {
-        Rc::new(DefaultImplDelegator::__from_unimock((*self).clone()))
+        // A sole owner hands over the instance itself: cloning it and dropping the caller's
+        // pointer would tear down the original while its own clone is still alive.
+        let unimock = Rc::try_unwrap(self).unwrap_or_else(|shared| (*shared).clone());
+        Rc::new(DefaultImplDelegator::__from_unimock(unimock))
     }
 
     fn from_delegator(delegator: Self::Delegator) -> Self {
-        Rc::new(delegator.unimock.clone())
+        // the reverse direction, for required methods with this receiver called from a default body
+        let unimock = match Rc::try_unwrap(delegator) {
+            Ok(delegator) => delegator.unimock,
+            Err(shared) => shared.unimock.clone(),
+        };
+        Rc::new(unimock)
     }
 }
 
@@ -83,11 +91,17 @@ impl DelegateToDefaultImpl for Arc<Unimock> {
     type Delegator = Arc<DefaultImplDelegator>;
 
     fn to_delegator(self) -> Self::Delegator {
-        Arc::new(DefaultImplDelegator::__from_unimock((*self).clone()))
+        // see the `Rc` implementation
+        let unimock = Arc::try_unwrap(self).unwrap_or_else(|shared| (*shared).clone());
+        Arc::new(DefaultImplDelegator::__from_unimock(unimock))
     }
 
     fn from_delegator(delegator: Self::Delegator) -> Self {
-        Arc::new(delegator.unimock.clone())
+        let unimock = match Arc::try_unwrap(delegator) {
+            Ok(delegator) => delegator.unimock,
+            Err(shared) => shared.unimock.clone(),
+        };
+        Arc::new(unimock)
     }
 }
 
